@@ -514,6 +514,82 @@ func c14W5(b *core.B, r *core.Rng, rounds int) {
 	}
 }
 
+var c14ColdTemplates = []string{
+	`<%= truncate("some text that is much longer than the fifty characters truncate keeps by default") %>`,
+	`<%= truncate("abcdef", {size: 3}) %>`, `<%= json({a: 1}) %>`, `<%= toJSON([1, "x"]) %>`, `<%= jsEscape("<a>") %>`, `<%= htmlEscape("<a>") %>`,
+	`<%= upcase("a") %><%= downcase("A") %><%= capitalize("ab cd") %>`, `<%= camelize("a_b") %><%= camelize_down_first("a_b") %><%= dasherize("a_b") %><%= underscore("aB") %>`,
+	`<%= pluralize("cat") %>`, `<%= singularize("cats") %>`, `<%= ordinalize(3) %>`, `<%= len([1, 2]) %>`,
+	`<%= for (i) in range(1, 3) { %><%= i %><% } %><%= for (i) in between(0, 3) { %><%= i %><% } %><%= for (i) in until(2) { %><%= i %><% } %>`,
+	`<%= for (g) in groupBy(2, [1, 2, 3]) { %>[<%= g %>]<% } %>`, `<%= inspect({a: 1}) %>`, `<%= debug([1]) %>`, `<%= raw("<b>") %>`,
+	`<%= env("NOPE_NOT_SET_ANYWHERE") %>`, `<%= envOr("NOPE_NOT_SET_ANYWHERE", "d") %>`, `<%= pathFor("x") %>`, `<%= pathFor(tt) %>`,
+	`<% contentFor("c") { %>C<%= 1 %><% } %><%= contentOf("c") %>|<%= contentOf("d") { %>D<% } %>`,
+	`<%= partial("p") %>|<%= partial("p", {layout: "l"}) %>|<%= partial("p.md") %>`,
+	`<% let f = fn(x) { return x + 1 } %><%= f(1) %><%= if (nope) { %>a<% } else { %>b<% } %><%= [1, 2] + 3 %><%= "a" ~= "a" %>`,
+}
+
+// c14Cold: the very first use of everything - the stock helpers, their option maps, the
+// template cache, whatever the library sets up lazily - is made by several executions at
+// once, before this process has rendered anything. (Every batch is a process of its own. A
+// reference rendered beforehand would do all first uses alone, and everything started
+// afterwards would be ordered after them.)
+func c14Cold(b *core.B) {
+	if !b.Begin("cold start: the stock helpers used for the first time in this process by 8 executions at once") {
+		return
+	}
+	const G = 8
+	run := func() []string {
+		outs := []string{}
+		for _, t := range c14ColdTemplates {
+			var o string
+			pan := core.Guard(func() {
+				ctx := plush.NewContext()
+				ctx.Set("tt", newT("cold"))
+				ctx.Set("partialFeeder", func(n string) (string, error) {
+					if n == "l" {
+						return "L(<%= yield %>)", nil
+					}
+					return "P<%= truncate(\"partial text\") %>", nil
+				})
+				s, err := plush.Render(t, ctx)
+				o = fmt.Sprintf("%q %v", s, err)
+			})
+			if pan != nil {
+				o = "panic: " + pan.Sig() + ": " + pan.Value
+			}
+			outs = append(outs, reHexAddr.ReplaceAllString(o, "0xADDR"))
+		}
+		return outs
+	}
+	res := make([][]string, G)
+	start := make(chan struct{})
+	var wg sync.WaitGroup
+	for g := 0; g < G; g++ {
+		wg.Add(1)
+		go func(g int) {
+			defer wg.Done()
+			<-start
+			res[g] = run()
+		}(g)
+	}
+	close(start)
+	wg.Wait()
+	ref := run()
+	b.Count("cold-start:first-use-of-the-stock-helpers-by-8-executions-at-once")
+	b.NonTrivialStr("cold", fmt.Sprint(b.Batch))
+	for g := 0; g < G; g++ {
+		for i := range ref {
+			if strings.HasPrefix(res[g][i], "panic: ") {
+				b.Violate("context-panic|cold-start", c14ColdTemplates[i]+": "+res[g][i])
+				return
+			}
+			if res[g][i] != ref[i] {
+				b.Violate("concurrent-result-differs|cold-start", fmt.Sprintf("%s: goroutine %d got %s, a later sequential render %s", c14ColdTemplates[i], g, res[g][i], ref[i]))
+				return
+			}
+		}
+	}
+}
+
 func renderQuietNoCache(t string, ctx *plush.Context) R {
 	var r R
 	r.Pan = core.Guard(func() {
@@ -756,6 +832,7 @@ func c14Run(b *core.B) {
 	if c14Quiet {
 		b.Count("batches-without-harness-synchronisation")
 	}
+	c14Cold(b)
 	switch b.Batch % 5 {
 	case 4:
 		c14W4(b, r, 40*scale)
@@ -778,7 +855,7 @@ func init() {
 	core.Register(&core.Prop{
 		ID:      "C14",
 		Level:   "exploration",
-		Rule:    "worker processes built with -race (and -tags verif), each sub-workload in its own child process, repeated 5x (quick) / 30x (thorough) because race reports vary from run to run. W1: one parsed template from the shared generator (no mutation of shared data; every fourth one a fresh Clone nobody has executed) executed by G in {2,4,8,16,32} goroutines x 3 repetitions, with own root contexts and with child contexts of one shared parent, hook H3 yielding at statement boundaries under a seeded chooser (in every other repetition the harness keeps quiet instead: no yield hook and no shared counters, whose atomics would order the executions and hide races from a happens-before detector); every result (output, error, side-effect trace) compared with the sequential result. W2: CacheEnabled=true, 4-32 goroutines mixing Render / Parse+Exec / CacheSet+Clone / cold texts over 6 templates, results compared with sequential ones. W4: the layout pattern - per goroutine one execution declaring a contentFor block and a later execution of another template replaying it with contentOf on the same child context of a shared parent, or the block declared once in the shared parent and replayed with per-execution data from its children, 4-32 goroutines. W5: a helper context kept by a helper of the caller's, its block - which ends in a break or continue for every other execution - replayed by hand inside loops, inside another helper's block and at top level by 4-32 executions at once. W3: 2-16 goroutines doing Set (unique values) / Value / Has on one context and through its child and grandchild plus New() storms, few keys; in half of the rounds every call is recorded at the client boundary with ticks from one atomic counter and the history (<= 400 operations) is checked for linearizability against a per-key register model with porcupine (timeout -> inconclusive). Oracle for all: every 'WARNING: DATA RACE' block of the process' race log whose innermost frame of either access is plush code is a violation 'race:<f>|<g>'. Non-trivial = a template / round that ran with >= 2 goroutines; evidence reports the maximum number of overlapping Exec calls and the number of distinct interleaving fingerprints observed.",
+		Rule:    "worker processes built with -race (and -tags verif), each sub-workload in its own child process, repeated 5x (quick) / 30x (thorough) because race reports vary from run to run. W1: one parsed template from the shared generator (no mutation of shared data; every fourth one a fresh Clone nobody has executed) executed by G in {2,4,8,16,32} goroutines x 3 repetitions, with own root contexts and with child contexts of one shared parent, hook H3 yielding at statement boundaries under a seeded chooser (in every other repetition the harness keeps quiet instead: no yield hook and no shared counters, whose atomics would order the executions and hide races from a happens-before detector); every result (output, error, side-effect trace) compared with the sequential result. W2: CacheEnabled=true, 4-32 goroutines mixing Render / Parse+Exec / CacheSet+Clone / cold texts over 6 templates, results compared with sequential ones. W4: the layout pattern - per goroutine one execution declaring a contentFor block and a later execution of another template replaying it with contentOf on the same child context of a shared parent, or the block declared once in the shared parent and replayed with per-execution data from its children, 4-32 goroutines. Cold start: at the start of every worker process, before it has rendered anything, 8 executions at once make the first use of every stock helper (races on lazily built or shared state are first-touch races: a sequential reference run beforehand would hide them). W5: a helper context kept by a helper of the caller's, its block - which ends in a break or continue for every other execution - replayed by hand inside loops, inside another helper's block and at top level by 4-32 executions at once. W3: 2-16 goroutines doing Set (unique values) / Value / Has on one context and through its child and grandchild plus New() storms, few keys; in half of the rounds every call is recorded at the client boundary with ticks from one atomic counter and the history (<= 400 operations) is checked for linearizability against a per-key register model with porcupine (timeout -> inconclusive). Oracle for all: every 'WARNING: DATA RACE' block of the process' race log whose innermost frame of either access is plush code is a violation 'race:<f>|<g>'. Non-trivial = a template / round that ran with >= 2 goroutines; evidence reports the maximum number of overlapping Exec calls and the number of distinct interleaving fingerprints observed.",
 		Assume:  []string{"a clean run means no race on the interleavings observed, not race freedom", "templates do not mutate data reachable from a shared parent (that would be a user-level race)"},
 		Batches: batchesQT(25, 150),
 		Run:     c14Run,
